@@ -16,7 +16,8 @@ static CC_ListIter it;
 static CC_ListZipIter zit;
 static int it_o, it_o2, it_changed;
 static int sparse;   /* obs=sparse on a constructor line: no observation through the library except by `observe` */
-static void shim_reset(void) { for (int i = 0; i < NSLOT; i++) L[i] = NULL; it_kind = 0; sparse = 0; }
+static void links_reset(void);
+static void shim_reset(void) { for (int i = 0; i < NSLOT; i++) L[i] = NULL; it_kind = 0; sparse = 0; links_reset(); }
 
 /* ---- harness callbacks ---- */
 static int cmp_num(const void *a, const void *b) { uintptr_t x = (uintptr_t)a, y = (uintptr_t)b; return x < y ? -1 : x > y; }
@@ -78,6 +79,58 @@ static void o_ptr(const char *name, int k, Node *p) {
     long q = pos_of(p);
     if (q < 0) o(" %s%d=?", name, k); else o(" %s%d=%ld", name, k, q);
 }
+/* ---- raw link structure: every node gets a display id when it is first seen on a walk (all live slots in ascending
+   order, along `next` from `head`) and keeps it while it stays on some list; `links<k>=[id:data:prev:next,...]` prints the
+   actual prev/next pointers through that table (`-` NULL, `?` a pointer to no listed node).  The Lean driver runs the
+   pointer-level model (Model/PList.lean) alongside and numbers its nodes in the same way, so L3 compares the link
+   structure and the identity of the nodes.  After an operation that has no pointer-level model (sort*, filter_mut, mk_*,
+   iterator mutators) both sides renumber from scratch. */
+#define DCAP (1u << 19)
+typedef struct { Node *p; unsigned long id; unsigned long gen; } DEnt;
+static DEnt dtab[2][DCAP];
+static unsigned long dgen[2], dgen_ctr, dnext_id;
+static int dcur, links_renumber;
+static size_t d_hash(Node *p) { return (size_t)((((uintptr_t)p) >> 4) * 2654435761u) & (DCAP - 1); }
+static long d_get(int t, Node *p) {
+    for (size_t i = d_hash(p);; i = (i + 1) & (DCAP - 1)) {
+        DEnt *e = &dtab[t][i];
+        if (e->gen != dgen[t]) return -1;
+        if (e->p == p) return (long)e->id;
+    }
+}
+static void d_put(int t, Node *p, unsigned long id) {
+    for (size_t i = d_hash(p);; i = (i + 1) & (DCAP - 1)) {
+        DEnt *e = &dtab[t][i];
+        if (e->gen != dgen[t]) { e->p = p; e->id = id; e->gen = dgen[t]; return; }
+        if (e->p == p) return;
+    }
+}
+static void links_reset(void) { dgen[0] = ++dgen_ctr; dgen[1] = ++dgen_ctr; dnext_id = 0; links_renumber = 0; }
+static void links_prepass(void) {
+    if (!dgen_ctr) links_reset();
+    int nt = 1 - dcur;
+    dgen[nt] = ++dgen_ctr;
+    for (int k = 0; k < NSLOT; k++) if (L[k]) {
+        size_t cnt = 0;
+        for (Node *n = L[k]->head; n && cnt < L[k]->size + 4; n = n->next, cnt++) {
+            if (d_get(nt, n) >= 0) break;
+            long id = links_renumber ? -1 : d_get(dcur, n);
+            d_put(nt, n, id >= 0 ? (unsigned long)id : dnext_id++);
+        }
+    }
+    dcur = nt; links_renumber = 0;
+}
+static void o_did(Node *p) { if (!p) { o("-"); return; } long id = d_get(dcur, p); if (id < 0) o("?"); else o("%ld", id); }
+static void o_links(int k) {
+    CC_List *l = L[k];
+    o(" links%d=[", k);
+    size_t cnt = 0; int first = 1;
+    for (Node *n = l->head; n && cnt < l->size + 4; n = n->next, cnt++) {
+        if (!first) o(","); first = 0;
+        o_did(n); o(":%llu:", VAL(n->data)); o_did(n->prev); o(":"); o_did(n->next);
+    }
+    o("] hd%d=", k); o_did(l->head); o(" tl%d=", k); o_did(l->tail);
+}
 static void phys_slot(int k) {
     CC_List *l = L[k];
     const char *walk = NULL;
@@ -105,10 +158,12 @@ static void phys_slot(int k) {
     if (it_kind == 3 && (it_o == k || it_o2 == k)) {
         o(" zitidx%d=%zu", k, zit.index);
         o_ptr("zitlast", k, it_o == k ? zit.l1_last : zit.l2_last); o_ptr("zitnext", k, it_o == k ? zit.l1_next : zit.l2_next); }
+    o_links(k);
     if (walk) o(" WALK=%s", walk);
 }
 static void phys(void) {
     int any = 0;
+    links_prepass();
     for (int k = 0; k < NSLOT; k++) if (L[k]) { if (any) o(" "); phys_slot(k); any = 1; }
     if (!any) o("-");
 }
@@ -124,6 +179,13 @@ static void do_op(Cmd *c) {
     uint64_t v = pos_u64(c, 0), idx = kv_u64(c, "idx", 0);
     int is_it = !strncmp(c->op, "it_", 3) || !strncmp(c->op, "dit_", 4) || !strncmp(c->op, "zit_", 4);
     if (!is_it && !is_op(c, "observe")) it_kind = 0;
+    {   /* operations without a pointer-level model: renumber the nodes afterwards (Driver/DList.lean: plUnsupported) */
+        static const char *un[] = { "sort", "sort_in_place", "filter_mut", "mk_sub", "mk_copy_shallow", "mk_copy_deep", "mk_filter",
+            "it_add", "it_remove", "it_replace", "dit_add", "dit_remove", "dit_replace", "zit_add", "zit_remove", "zit_replace", NULL };
+        int k0 = (int)kv_u64(c, "o", 0), f0 = (int)kv_u64(c, "from", 1), t0 = (int)kv_u64(c, "to", 1);
+        if (k0 >= 0 && k0 < NSLOT && f0 >= 0 && f0 < NSLOT && t0 >= 0 && t0 < NSLOT)
+            for (int i = 0; un[i]; i++) if (is_op(c, un[i])) links_renumber = 1;
+    }
     if (!strncmp(c->op, "new", 3) && !strcmp(kv_str(c, "obs", "full"), "sparse")) sparse = 1;
     if (k < 0 || k >= NSLOT || from < 0 || from >= NSLOT || to < 0 || to >= NSLOT) { o("st=- badslot "); goto done; }
     if (is_op(c, "observe")) { o("st=- "); sweep_slot = -1; obs_all(); o_sep(); phys(); return; }
